@@ -11,7 +11,8 @@ Explains(e) ==
   \/ NoPanic(e) /\
      \/ e.op = "ts.from"   /\ OptDT(e.r) = FromTimestamp(J(e.c), J(e.unit))
      \/ e.op = "ts.from2"  /\ OptDT(e.r) = FromSecsNanos(J(e.s), J(e.nn))
-     \/ e.op = "dt.ts"     /\ IsDT(e.dt) /\ ~IsLeapDT(e.dt) /\ J(e.s) = TsSeconds(e.dt) /\ J(e.ms) = TsMillis(e.dt) /\ J(e.us) = TsMicros(e.dt)
+     \* (inside a leap second the sub-second readings run on: seconds are those of second 59, the finer counts include the extra second)
+     \/ e.op = "dt.ts"     /\ IsDT(e.dt) /\ J(e.s) = TsSeconds(e.dt) /\ J(e.ms) = TsMillis(e.dt) /\ J(e.us) = TsMicros(e.dt)
                            /\ (IF IsNone(e.ns) THEN TsNanosOpt(e.dt) = NoDT ELSE J(e.ns) = TsNanosOpt(e.dt))
      \/ e.op = "dt.subsec" /\ e.ns = e.dt.frac /\ e.us = e.dt.frac \div 1000 /\ e.ms = e.dt.frac \div 1000000
      \/ e.op = "sys.rt"    /\ OptDT(e.dt) = FromSecsNanos(J(e.s), J(e.nn)) /\ e.back = TRUE          \* SystemTime -> DateTime -> SystemTime
